@@ -54,4 +54,49 @@ PROPS = {
         "level_text": "Each helper call and each cursor operation is compared step by step with a trivially correct model, under an interpreter that reports any out-of-bounds or invalid-str access.",
         "level_note": "Trusted: Miri's Unix OsStr model; the naive reference. Histories are bounded (<= 40 ops, <= 3 + inserted items).",
     },
+    "C20": {
+        "quick_ms": 15000,
+        "thorough_ms": 240000,
+        "floors": {"plain.with_breaks": 10000, "plain.no_breaks": 1000, "styled.with_breaks": 1000, "styled.with_escapes": 500,
+                   "plain.overlong_single_word": 100, "exhaustive.strings": 100000},
+        "rule": "exhaustive: every string of <= 6 (quick) / 7 (thorough) symbols over {a, bb, ' ', '  ', LF, wide CJK, e+combining acute} "
+                "x widths 1..8 through textwrap::wrap (template `[{author}]`), one width each through StyledStr::wrap (`[{about}]`); "
+                "random: 1-60 words of 1-30 chars incl. wide, zero-width, combining, emoji, hyphens; multiple spaces, indented lines, "
+                "blank lines, 'space before LF'; widths 0..120; styled variant with SGR sequences between and inside words. "
+                "Oracle: alignment walk (equal chars advance; otherwise a maximal space run is replaced by LF + the line's indent), "
+                "width bound on visible (right-trimmed) lines unless single word, width 0 = identity, escapes byte-identical in order. "
+                "distinct_nontrivial = distinct (text, width) hashes (cap 60k/shard).",
+        "exhaustive_note": "symbols^<=6 x widths 1..8 (quick), symbols^<=7 (thorough): enumerated completely, sliced over shards",
+        "assumptions": COMMON_ASSUME + ["whitespace other than ' ' and LF (tab, NBSP, ...) is outside the text class: clap's trim_end()/trim() treat it as trimmable",
+                                        "width measured with the same unicode-width tables clap uses (trusted base)",
+                                        "styled: only CSI/SGR sequences are generated; indent after a break in styled text is not judged (wrapper state is carried across style blocks by design)"],
+        "technique": "runtime oracle on recorded (text, width, output): alignment/conservation checker + width bound, exhaustive over short strings and random beyond",
+        "level_text": "Every wrap call is judged by an alignment oracle that admits exactly one transformation (space run -> line break + indent); exhaustive for short strings x small widths, 10^5-10^6 random cases beyond.",
+        "level_note": "Access through Command::help_template sentinels instead of a hook; the help writer's own trimming is kept out by the `[`...`]` literals.",
+    },
+    "C04": {
+        "quick_ms": 12000,
+        "thorough_ms": 240000,
+        "floors": {"ranged.accepted": 10000, "ranged.rejected": 100000, "ranged.real_parse_ok": 1000, "boolish.accepted": 50, "boolish.rejected": 50,
+                   "falsey.accepted": 50, "possible.accepted": 1000, "possible.rejected": 1000, "access.downcast": 500, "access.unknown": 500,
+                   "access.removed": 500, "exhaustive.triples": 1000000},
+        "rule": "exhaustive: for T in {i8,i16,i32,i64,u8,u16,u32} x ranges with bounds from {T::MIN, T::MIN+1, -1, 0, 1, T::MAX-1, T::MAX} "
+                "(plus, on a full-i64 base parser, T::MIN-3, T::MAX+3, i64::MIN, i64::MAX) x {inclusive, exclusive, unbounded} x candidate "
+                "values b+d (b in range bounds, T limits, i64/u64 limits, +-2^63, 2^64; d in -2..2) x spellings (plain, +, leading zeros, -0, "
+                "spaces, trailing junk, .0, e0) + junk strings (empty, signs only, hex, underscores, fullwidth/Arabic digits, 40-digit, 73-digit zeros) "
+                "+ non-UTF-8; same for u64; every ASCII-case variant of the 12 boolish literals +- space/junk for bool/boolish/falsey/non-empty. "
+                "Oracle: independent decimal model (no machine-integer parsing; i128 after a length check) intersected with range and type; "
+                "error kind and 'error names the argument'; every 7th (type,range) also through a real parse `--num=<s>`. "
+                "random: possible-value sets (aliases, hidden, ignore_case, non-ASCII names) x candidate strings; typed-access histories "
+                "(get_one/many, remove_one/many/occurrences, contains_id x right type/wrong type/unknown id) against a map model with a full "
+                "snapshot comparison after every step; random ranges x random digit strings. distinct_nontrivial = distinct (type,range) "
+                "configurations + distinct random cases.",
+        "exhaustive_note": "the (type, range, candidate-string) boundary product is enumerated completely on every run",
+        "assumptions": COMMON_ASSUME + ["`-0` for the u64 parser is not judged (the property does not fix the notation of unsigned zero)",
+                                        "non-ASCII case folding under ignore_case: only 'an exact match is accepted' and 'an accepted value folds to a declared name' are asserted",
+                                        "unknown-id detection exists only with debug assertions (this build)"],
+        "technique": "language-equality oracle over an exhaustive boundary enumeration + reference-model monitor over typed-access histories",
+        "level_text": "Every (type, range, string) boundary triple is decided against an independent big-decimal specification on every run; typed access is checked as a state machine with a snapshot after every operation.",
+        "level_note": "Trusted: the decimal model (string shape + i128 arithmetic after length check), the literal tables copied from the documentation.",
+    },
 }
